@@ -189,8 +189,10 @@ func c19RestoreAndCompare(r *core.Run, w *wworld.World, seed *c19Seed, mnemonic,
 	for ks, c := range seed.maxSigned() {
 		seed.derive(ks, c+20)
 	}
-	want, nproofs := seed.expectedRestorable(w)
 	_, err := wworld.Restore(dir, mnemonic, urls)
+	// the mint-side value is read after the restore: its state checks are requests like any other
+	// and settle a pending melt whose payment has meanwhile succeeded or failed
+	want, nproofs := seed.expectedRestorable(w)
 	if err != nil {
 		if wworld.IsPanic(err) {
 			r.Violate("restore-panic", err.Error(), sig, tail)
@@ -324,6 +326,18 @@ func c19Histories(r *core.Run) {
 		}
 		for i := 0; i < nops && r.Violations() < 10; i++ {
 			s.RandomOp(cfg)
+		}
+		// directed: a melt is left in flight, the payment then succeeds and nobody looks before the
+		// restore does (its own state check is the first to find the melt paid)
+		for _, wn := range w.Wallets {
+			if wn.W == nil {
+				continue
+			}
+			if url, bal := wn.DefaultURL, wn.ByMint()[wn.DefaultURL]; bal > 40 {
+				if rec, err := s.OpMelt(wn, bal/3, url, lnmodel.PayPlan{Answer: lnmodel.APending, Truth: lnmodel.InFlight}); err == nil && rec != nil && rec.State == "PENDING" {
+					w.LN.Resolve(w.MintByURL(url).Env.Name, rec.Hash, true)
+				}
+			}
 		}
 		for wn, seed := range wallets {
 			if wn.W != nil {
